@@ -162,3 +162,12 @@ P("C09", "srcfacts+mirfacts+rules",
   "(hash-order-free) order; every resolved type records its dependency edges, harvested from all its fields, with no diverting branch.  "
   "The equivalence of the text-based edge harvester with the structure-based schema references is not decided.",
   "the statement is conditional on an acyclic type graph", a=True, b=True)
+
+P("C12", "srcfacts+mirfacts+rules",
+  "static analysis: arm-by-arm coverage tables of the expression walk (match coverage), literal tables of the receiver heuristic / argument positions / payload typing (TABLE), listener template path facts (TPATH), separator coverage of the identifier mangling (HAZARD), presence of uniqueness steps (FLOW), guard of the events module (CTRL)",
+  "Decides: the walk has an arm for each documented placement and recurses into the listed sub-expressions (incl. else branches, every match arm, "
+  "receiver and arguments of method calls), statements and all top-level fns; receivers app/window/webview and method-call results; emit/emit_to "
+  "argument positions and literal-only names; both listener templates export one function subscribed to '{{ event.eventName }}'; '-', '/', ':' "
+  "never reach the identifier; uniqueness steps keyed on event name and on identifier exist; literal payload kinds map to the documented types, "
+  "the symbol table keeps generic arguments, unknown otherwise; events.ts is written under exactly `events not empty`.",
+  "payload inference outside the documented forms is not decided", a=True, b=True)
